@@ -21,15 +21,29 @@ type C06Params struct {
 	Healthy []string // healthy concurrent items: worker, mt-medium, task
 	Explore bool     // explore the interleavings of the panicking item with the healthy ones and the stop
 	Chain   bool     // the module depends on a second, healthy module (which stops after it and starts before it)
+	Panics  int      // how often the item panics in a row (0 = once); the same item is run again after the first panic
+	Mgmt    bool     // service worker only: module management is on, the module is disabled during the back-off and enabled again afterwards (no management pass in between)
 }
 
 func (p C06Params) Name() string {
-	return fmt.Sprintf("c06/%s/value=%s/healthy=%s/explore=%v/chain=%v", p.Kind, p.Value, strings.Join(p.Healthy, "+"), p.Explore, p.Chain)
+	n := fmt.Sprintf("c06/%s/value=%s/healthy=%s/explore=%v/chain=%v", p.Kind, p.Value, strings.Join(p.Healthy, "+"), p.Explore, p.Chain)
+	if p.Panics > 1 {
+		n += fmt.Sprintf("/panics=%d", p.Panics)
+	}
+	if p.Mgmt {
+		n += "/mgmt"
+	}
+	return n
 }
 
 type c06struct struct {
 	A int
 	B string
+}
+
+// c06unc is a panic value of a type that cannot be compared with ==.
+type c06unc struct {
+	S []int
 }
 
 var c06err = errors.New("seeded panic error value")
@@ -56,6 +70,8 @@ func c06panic(value string) {
 		// an error interface holding a nil pointer whose Error method dereferences it
 		var pe *os.PathError
 		panic(error(pe))
+	case "uncomparable":
+		panic(c06unc{[]int{1, 2}})
 	}
 	panic("unknown panic value kind " + value)
 }
@@ -81,6 +97,9 @@ func c06matches(value string, pv interface{}) bool {
 	case "typednil":
 		pe, ok := pv.(*os.PathError)
 		return ok && pe == nil
+	case "uncomparable":
+		u, ok := pv.(c06unc)
+		return ok && len(u.S) == 2 && u.S[0] == 1 && u.S[1] == 2
 	}
 	return false
 }
@@ -89,7 +108,7 @@ type c06state struct {
 	entered      int // how often the panicking function was entered
 	healthyBegun int
 	healthyEnded int
-	armed        bool // the function panics while armed
+	armed        int // the function panics while armed > 0
 }
 
 var c06 *c06state
@@ -99,7 +118,10 @@ func VerifC06(p C06Params) *vsched.Scenario {
 	sc := &vsched.Scenario{Name: p.Name(), MaxSteps: 80000}
 	sc.Reset = func() {
 		VerifResetWorld()
-		c06 = &c06state{armed: true}
+		c06 = &c06state{armed: 1}
+		if p.Panics > 1 {
+			c06.armed = p.Panics
+		}
 	}
 	sc.Body = func() {
 		s := c06
@@ -123,13 +145,17 @@ func VerifC06(p C06Params) *vsched.Scenario {
 		}
 		m := Register("mod", lifecycle("prep"), lifecycle("start"), lifecycle("stop"), deps...)
 		m.RegisterEvent("ev", true)
+		if p.Mgmt {
+			EnableModuleManagement(func(*Module) {})
+			m.Enable()
+		}
 		// the panicking function: panics while armed, otherwise behaves (and may wait for cancellation)
 		waitWhenHealthy := p.Kind == "service-worker"
 		fn := func(ctx context.Context) error {
 			s.entered++
 			vsched.Ev(fmt.Sprintf("enter:%d", s.entered))
-			if s.armed {
-				s.armed = false
+			if s.armed > 0 {
+				s.armed--
 				c06panic(p.Value)
 			}
 			if waitWhenHealthy {
@@ -239,43 +265,74 @@ func VerifC06(p C06Params) *vsched.Scenario {
 			}
 		}
 		var task *Task
-		switch p.Kind {
-		case "run-worker":
-			checkReported("blocking", m.RunWorker("w", fn))
-		case "start-worker":
-			m.StartWorker("w", fn)
-		case "service-worker":
-			m.StartServiceWorker("sw", 0, fn)
-		case "task-queue":
-			task = m.NewTask("t", func(ctx context.Context, _ *Task) error { return fn(ctx) }).Queue()
-		case "task-schedule":
-			task = m.NewTask("t", func(ctx context.Context, _ *Task) error { return fn(ctx) }).Schedule(time.Now().Add(5 * time.Second))
-		case "mt-run-high":
-			checkReported("blocking", m.RunHighPriorityMicroTask("mt", fn))
-		case "mt-run-medium":
-			checkReported("blocking", m.RunMicroTask("mt", 0, fn))
-		case "mt-run-low":
-			checkReported("blocking", m.RunLowPriorityMicroTask("mt", 0, fn))
-		case "mt-start-high":
-			m.StartHighPriorityMicroTask("mt", fn)
-		case "mt-start-medium":
-			m.StartMicroTask("mt", 0, fn)
-		case "mt-start-low":
-			m.StartLowPriorityMicroTask("mt", 0, fn)
-		case "hook":
-			m.TriggerEvent("ev", nil)
-		default:
-			panic("unknown kind " + p.Kind)
+		runItem := func(round int) {
+			switch p.Kind {
+			case "run-worker":
+				checkReported("blocking", m.RunWorker("w", fn))
+			case "start-worker":
+				m.StartWorker("w", fn)
+			case "service-worker":
+				m.StartServiceWorker("sw", 0, fn)
+			case "task-queue":
+				if round > 0 {
+					task.Queue()
+					break
+				}
+				task = m.NewTask("t", func(ctx context.Context, _ *Task) error { return fn(ctx) }).Queue()
+			case "task-schedule":
+				if round > 0 {
+					task.Schedule(time.Now().Add(5 * time.Second))
+					break
+				}
+				task = m.NewTask("t", func(ctx context.Context, _ *Task) error { return fn(ctx) }).Schedule(time.Now().Add(5 * time.Second))
+			case "mt-run-high":
+				checkReported("blocking", m.RunHighPriorityMicroTask("mt", fn))
+			case "mt-run-medium":
+				checkReported("blocking", m.RunMicroTask("mt", 0, fn))
+			case "mt-run-low":
+				checkReported("blocking", m.RunLowPriorityMicroTask("mt", 0, fn))
+			case "mt-start-high":
+				m.StartHighPriorityMicroTask("mt", fn)
+			case "mt-start-medium":
+				m.StartMicroTask("mt", 0, fn)
+			case "mt-start-low":
+				m.StartLowPriorityMicroTask("mt", 0, fn)
+			case "hook":
+				m.TriggerEvent("ev", nil)
+			default:
+				panic("unknown kind " + p.Kind)
+			}
 		}
-		vsched.Quiesce()
-		if p.Kind == "task-schedule" {
-			vsched.Advance(6 * time.Second)
+		rounds := 1
+		if p.Panics > 1 {
+			rounds = p.Panics
 		}
-		if s.entered == 0 {
-			verifFail("harness", "not-entered", "the panicking %s was never entered", p.Kind)
-			return
+		for round := 0; round < rounds; round++ {
+			before := s.entered
+			if round == 0 || p.Kind != "service-worker" {
+				runItem(round)
+			}
+			vsched.Quiesce()
+			switch {
+			case p.Kind == "task-schedule":
+				vsched.Advance(6 * time.Second)
+			case p.Kind == "service-worker" && round > 0:
+				// it restarts itself after the back-off (which grows with every failure) and panics again
+				vsched.Advance(time.Duration(round)*DefaultBackoffDuration + time.Second)
+			case (p.Kind == "task-queue") && round > 0 && s.entered == before:
+				// the queue may legitimately stay occupied up to the execution-wait limit
+				vsched.Advance(maxExecutionWait + time.Second)
+			}
+			if s.entered == before && task != nil && round > 0 {
+				// the queue may legitimately stay occupied up to the execution-wait limit
+				vsched.Advance(maxExecutionWait + time.Second)
+			}
+			if s.entered == before {
+				verifFail("harness", "not-entered", "the panicking %s was not entered in round %d", p.Kind, round)
+				return
+			}
+			checkChannel()
 		}
-		checkChannel()
 		// accounting: counters are back to their previous values (plus the healthy items still running)
 		exp := pre
 		for _, h := range p.Healthy {
@@ -302,10 +359,18 @@ func VerifC06(p C06Params) *vsched.Scenario {
 			}
 		}
 		if p.Kind == "service-worker" {
+			if p.Mgmt {
+				// the module is disabled while the worker backs off and enabled again before any management pass:
+				// it never stops, so the worker has to come back
+				m.Disable()
+				vsched.Advance(time.Duration(rounds)*DefaultBackoffDuration + time.Second)
+				m.Enable()
+				vsched.Quiesce()
+			}
 			// restarted after the back-off
-			vsched.Advance(DefaultBackoffDuration + time.Second)
-			if s.entered < 2 {
-				verifFail("service-worker-restarted", p.Kind, "the service worker function was entered %d time(s) after the back-off", s.entered)
+			vsched.Advance(time.Duration(rounds)*DefaultBackoffDuration + time.Second)
+			if s.entered < rounds+1 {
+				verifFail("service-worker-restarted", p.Kind, "the service worker function was entered %d time(s) after %d panic(s) and the back-off", s.entered, rounds)
 			}
 		}
 		checkCounters("after-panic")
